@@ -28,17 +28,7 @@ struct L07 : Listener {
             size_t slot = static_cast<size_t>((op.arg(0) < 0 ? -op.arg(0) : op.arg(0)) % 4);
             SFrame F = takeFrame(in.slots[slot]);
             dev = in.slotDev[slot].empty() ? "unbuilt" : in.slotDev[slot];
-            if (s.nP != 0 && F.pts.size() != s.nP) reasons.insert("runtime:point-count");
-            for (auto &l : s.plabels) { bool found = false; for (auto &p : F.pts) if (p.name == l) found = true; if (!found) reasons.insert("invalid:label-missing"); }
-            if (!F.pts.empty() && s.prate == 0.f) reasons.insert("runtime:point-rate-0");
-            if (!F.subs.empty() && s.arate == 0.f) reasons.insert("runtime:analog-rate-0");
-            if (!F.subs.empty() && s.nC != 0 && F.subs[0].size() != s.nC) reasons.insert("runtime:channel-count");
-            // deviations the documentation does not cover: undeclared columns, sub-frame count, ragged sub-frames
-            if (s.nP == 0 && !F.pts.empty()) eitherWay = true;
-            if (s.nC == 0 && !F.subs.empty() && !F.subs[0].empty()) eitherWay = true;
-            if (F.subs.size() != (s.nC ? s.nSub : 0)) eitherWay = true;
-            for (auto &sf : F.subs) if (sf.size() != (F.subs.empty() ? 0 : F.subs[0].size())) eitherWay = true;
-            std::set<std::string> seen; for (auto &p : F.pts) { if (seen.count(p.name)) eitherWay = true; seen.insert(p.name); }
+            reasons = frameRefusalReasons(s, F, &eitherWay);
         }
     }
     void after(Interp &in, const Op &op, size_t i, const Outcome &o) override {
@@ -71,12 +61,14 @@ struct L07 : Listener {
         if (deviates) ++deviating; else if (state.size() == 5 && state[4] == 'D') ++matchingOnData;
         std::string outc = o.threw ? o.cls : "accepted";
         r.tags.insert(k + "/" + state + "/" + dev + "/" + outc);
-        if (o.undocumented) { stop = true; return; }
         // (frames on an object with nothing declared are accepted; the quantifier of C07 names "undeclared, with data" as a state, so the history goes on)
         if (!o.threw) {
-            if (!reasons.empty()) { r.fail("op " + std::to_string(i) + " (" + k + " " + dev + ", state " + state + ") was accepted although a documented precondition is violated: " + *reasons.begin()); stop = true; }
+            // a documented reason for refusal counts whether or not the frame ALSO deviates in a way the documentation is silent about
+            if (!reasons.empty()) { r.fail("op " + std::to_string(i) + " (" + k + " " + dev + ", state " + state + ") was accepted although a documented precondition is violated: " + *reasons.begin()); stop = true; return; }
+            if (o.undocumented) stop = true;
             return;
         }
+        if (o.undocumented) { stop = true; return; }
         bool classOk = false;
         for (auto &rs : reasons) {
             if (rs.rfind("runtime:", 0) == 0 && isRuntimeFamily(o.cls)) classOk = true;
